@@ -196,8 +196,15 @@ def a04_window_invariant(ctx):
 
 def check_iterators(ctx, f, r, methods):
     n = 0
-    for it_ty, ctor in (('core::window::WindowIterator', 'iter'), ('core::window::ReversedWindowIterator', 'iter_rev')):
+    if len(WR.iters) != 2:
+        raise Broken('expected the two window iterators, found %s' % sorted(WR.iters))
+    for it_ty in sorted(WR.iters):
         short = it_ty.rsplit('::', 1)[-1]
+        # the Window method that returns this iterator (`iter` / `iter_rev` today), wherever the iterator type lives
+        ctors_ = [nm for nm, bid_ in methods.items() if ('-> %s<' % it_ty) in (f.fns.get('core::window::Window::<T>::' + nm, {}).get('sig') or '')]
+        ctors_ = sorted(nm for nm in ctors_ if (f.fns.get('core::window::Window::<T>::' + nm, {}).get('sig') or '').split('fn(', 1)[-1].rsplit(') ->', 1)[0].count(',') == 0)     # (&self) only
+        if not ctors_:
+            raise Broken('no Window method returning %s was found' % short)
         nid = "<%s<'_, f64> as std::iter::Iterator>::next" % it_ty
         if nid not in f.bodies:
             raise Broken('%s::next (f64 instance) not found' % short)
@@ -251,27 +258,28 @@ def check_iterators(ctx, f, r, methods):
                     r.violate(key + '|invariant|size', '%s::next does not keep its remaining count <= window.size' % short, b.file, b.line)
             if len(r.samples) < 14:
                 r.sample({'method': short + '::next', 'window': 'non-empty' if nonempty else 'empty', 'panic sites refuted': ex.discharged})
-        # the constructor establishes J from I
-        cid = methods.get(ctor)
-        ex = Exec(f)
-        st = St()
-        wv, size_vid, index_vid, s1_vid = mk_window(ex, st, True)
-        wc = ex.alloc(st, wv)
-        b = ex.body(cid)
-        outs = ex.run_fn(b, st, [('ref', wc)], [cid])
-        r.inst('%s|establishes' % short)
-        n += 1
-        for s2, rv in outs:
-            if rv[0] != 'adt':
-                r.violate('%s|establishes|value' % short, 'Window::%s does not return an iterator literal' % ctor, b.file, b.line)
-                continue
-            fl = next(iter(rv[3].values()))
-            ir = WR.iters[it_ty]
-            ni, ns = s2.cells[fl[ir['cursor']]], s2.cells[fl[ir['count']]]
-            if ni[0] != 'int' or not ex.prove_lt(s2, ni[2], size_vid):
-                r.violate('%s|establishes|index' % short, 'Window::%s starts its cursor outside the buffer' % ctor, b.file, b.line)
-            if ns[0] != 'int' or not ex.prove_le(s2, ns[2], size_vid):
-                r.violate('%s|establishes|size' % short, 'Window::%s starts with a remaining count above the window size' % ctor, b.file, b.line)
+        # every Window method that hands out this iterator establishes J from I
+        for ctor in ctors_:
+            cid = methods.get(ctor)
+            ex = Exec(f)
+            st = St()
+            wv, size_vid, index_vid, s1_vid = mk_window(ex, st, True)
+            wc = ex.alloc(st, wv)
+            b = ex.body(cid)
+            outs = ex.run_fn(b, st, [('ref', wc)], [cid])
+            r.inst('%s|establishes|%s' % (short, ctor))
+            n += 1 if ctor == ctors_[0] else 0
+            for s2, rv in outs:
+                if rv[0] != 'adt':
+                    r.violate('%s|establishes|value' % short, 'Window::%s does not return an iterator literal' % ctor, b.file, b.line)
+                    continue
+                fl = next(iter(rv[3].values()))
+                ir = WR.iters[it_ty]
+                ni, ns = s2.cells[fl[ir['cursor']]], s2.cells[fl[ir['count']]]
+                if ni[0] != 'int' or not ex.prove_lt(s2, ni[2], size_vid):
+                    r.violate('%s|establishes|index' % short, 'Window::%s starts its cursor outside the buffer' % ctor, b.file, b.line)
+                if ns[0] != 'int' or not ex.prove_le(s2, ns[2], size_vid):
+                    r.violate('%s|establishes|size' % short, 'Window::%s starts with a remaining count above the window size' % ctor, b.file, b.line)
     return n
 
 
@@ -386,7 +394,13 @@ def a07_deserialize_accepts_valid(ctx):
     set_period_type(f)
     r = RuleResult('A07', 'Window::deserialize: for every decoded (buf, index) with 1 <= buf.len() <= PeriodType::MAX - 1 and index < buf.len(), and for the empty window ([], 0), the result is Ok '
                           '(never Err) and the rebuilt window has size == buf.len() and satisfies the representation invariant (that (buf, cursor) denote the decoded sequence is S03\'s from_parts clause)')
-    bid = next((b for b in f.bodies if b.startswith('G:<core::window::Window<T> as ') and b.endswith('Deserialize<\'de>>::deserialize')), None)
+    # the impl is found through the impl table (its printed path depends on the module the impl block is written in)
+    bid = None
+    for i_ in f.impls:
+        if i_.get('trait_name') == 'Deserialize' and (i_.get('trait_crate') or '').startswith('serde') and i_['self_tyj'].get('def') == W and not i_.get('derived'):
+            for it_ in i_['items']:
+                if it_['name'] == 'deserialize' and ('G:' + it_['path']) in f.bodies:
+                    bid = 'G:' + it_['path']
     if bid is None:
         raise Broken('Window::deserialize not found')
     b0 = f.bodies[bid]
